@@ -227,8 +227,45 @@ def family_hier(tier, variants=VARIANTS):
     return out
 
 
+def shape_family(maxlevels=5):
+    """Hierarchy *shapes* (the wiring is a fixed pass-through): a chain of k <= maxlevels non-leaf cells below the top,
+    each level instancing the next one once (1), twice (2), or once plus the level after next once (3).  All 3^k
+    codes for every k: which cells are shared, and at which depth they become shared, in every combination."""
+    out = []
+    for k in range(1, maxlevels + 1):
+        for codes in itertools.product((1, 2, 3), repeat=k):
+            out.append(("SHAPE", codes, "plain"))
+    return out
+
+
+def _materialize_shape(codes):
+    k = len(codes)
+    names = ["T"] + ["N%d" % i for i in range(1, k + 1)]
+    defs = []
+    for lvl, nm in enumerate(names):
+        ports = [port("p", 1, "in"), port("q", 1, "out")] if lvl == 0 else [port("a", 1, "in"), port("y", 1, "out")]
+        if lvl < k:
+            nxt = names[lvl + 1]
+            kids = [("u0", nxt)] + ([("u1", nxt)] if codes[lvl] == 2 else [])
+            if codes[lvl] == 3:
+                kids.append(("s0", names[lvl + 2] if lvl + 2 <= k else "L1"))
+        else:
+            kids = [("c", "L1")]
+        d = {"name": nm, "ports": ports, "insts": [{"name": n_, "ref": ["work", r_]} for n_, r_ in kids], "nets": []}
+        pin_in = lambda r_: "i" if r_ == "L1" else "a"
+        pin_out = lambda r_: "o" if r_ == "L1" else "y"
+        w0 = [["P", ports[0]["name"], 0]] + [["I", n_, pin_in(r_), 0] for n_, r_ in kids]
+        w1 = [["I", kids[0][0], pin_out(kids[0][1]), 0], ["P", ports[1]["name"], 0]]
+        d["nets"] = [{"name": "w0", "lower": 0, "bits": [w0]}, {"name": "w1", "lower": 0, "bits": [w1]}]
+        defs.append(d)
+    return {"name": "n", "top": ["work", "T"], "libs": [{"name": "work", "defs": [dict(LEAF1)] + list(reversed(defs))}],
+            "family": "SHAPE", "variant": "plain"}
+
+
 def materialize(desc):
     sk, idx, variant = desc
+    if sk == "SHAPE":
+        return _materialize_shape(idx)
     defs, leaves, _ = SKELETONS[sk]
     ws = skeleton_wirings(sk)
     out_defs = []
